@@ -293,6 +293,8 @@ class Program(object):
                 return [("ext", "builtins." + expr.id)]
             if b[0] == "value":
                 return self.resolve_expr_fn(b[2], b[2])
+            if b[0] == "param" and isinstance(b[1], ast.FunctionDef):
+                return self._resolve_param_fn(expr.id, b[1])
             if b[0] == "local" and isinstance(b[1], (ast.FunctionDef, ast.AsyncFunctionDef)):
                 # a local bound exactly once to a function-valued expression (e.g. `g = partial(f, ...)`)
                 defs = [n for n in ast.walk(b[1]) if isinstance(n, ast.Assign) and any(isinstance(t, ast.Name) and t.id == expr.id for t in n.targets)]
@@ -343,6 +345,60 @@ class Program(object):
         if isinstance(expr, ast.IfExp):
             return self.resolve_expr_fn(expr.body, at) + self.resolve_expr_fn(expr.orelse, at)
         return []
+
+    def _resolve_param_fn(self, name, fn_node):
+        """A parameter called as a function inside a closure / private helper all of whose uses are direct calls: the
+        union of what the call sites pass for it (the caller hands over `partial(worker, ...)`, the helper calls it)."""
+        busy = self.__dict__.setdefault("_param_busy", set())
+        key = (id(fn_node), name)
+        if key in busy:
+            return []
+        busy.add(key)
+        try:
+            exprs = self.param_arg_exprs(name, fn_node)
+            out = []
+            for v in exprs or []:
+                for t in self.resolve_expr_fn(v, v):
+                    if t not in out:
+                        out.append(t)
+            return out
+        finally:
+            busy.discard(key)
+
+    def param_arg_exprs(self, name, fn_node):
+        """The expressions every call site passes for parameter `name` of a closure / private module-level helper whose
+        every use is a direct call (so all callers are visible); None when that cannot be established."""
+        fi = getattr(fn_node, "_fninfo", None)
+        if fi is None or (fi.parent_fn is None and (not fi.name.startswith("_") or fi.cls is not None)):
+            return None
+        if True:
+            root = fi.parent_fn.node if fi.parent_fn is not None else fi.module.tree
+            calls = []
+            for n in ast.walk(root):
+                if isinstance(n, ast.Name) and n.id == fi.name and isinstance(n.ctx, ast.Load):
+                    b = self.lookup(n.id, n)
+                    if b[0] == "func" and b[1] is fi:
+                        par = getattr(n, "_parent", None)
+                        if not (isinstance(par, ast.Call) and par.func is n):
+                            return None  # the helper escapes as a value: its callers are not all visible
+                        calls.append(par)
+            a = fn_node.args
+            pos = [x.arg for x in a.posonlyargs + a.args]
+            defaults = dict(zip(pos[len(pos) - len(a.defaults):], a.defaults))
+            defaults.update({x.arg: d for x, d in zip(a.kwonlyargs, a.kw_defaults) if d is not None})
+            out = []
+            for c in calls:
+                if any(isinstance(x, ast.Starred) for x in c.args) or any(k.arg is None for k in c.keywords):
+                    return None
+                v = None
+                if name in pos and pos.index(name) < len(c.args):
+                    v = c.args[pos.index(name)]
+                else:
+                    v = next((k.value for k in c.keywords if k.arg == name), defaults.get(name))
+                if v is None:
+                    return None
+                out.append(v)
+            return out
 
     def inline_pred(self, call):
         """`helper(args)` where helper is a function of the package whose body is a single `return <expr>`: that
@@ -408,6 +464,44 @@ class Program(object):
                     out = expr
         cache[key] = (call, out)
         return out
+
+    def see_through(self, expr, rounds=6):
+        """`expr` with every call of a single-return helper of the package replaced by that helper's expression (see
+        inline_pred), repeatedly: a fresh parent-linked tree hung at expr's place.  Rules that judge the *shape* of a
+        condition or of an element expression read it as if the helper had never been extracted."""
+        def link(n, parent):
+            n._parent = parent
+            for ch in ast.iter_child_nodes(n):
+                link(ch, n)
+        root = _strip_parents(expr)
+        link(root, getattr(expr, "_parent", None))
+        holder = [root]
+        for _ in range(rounds):
+            changed = False
+            for n in list(ast.walk(holder[0])):
+                if not isinstance(n, ast.Call):
+                    continue
+                e = self.inline_pred(n)
+                if e is None:
+                    continue
+                par = n._parent
+                if n is holder[0]:
+                    holder[0] = e
+                else:
+                    for f in par._fields:
+                        v = getattr(par, f, None)
+                        if v is n:
+                            setattr(par, f, e)
+                        elif isinstance(v, list):
+                            for i, x in enumerate(v):
+                                if x is n:
+                                    v[i] = e
+                link(e, par)
+                changed = True
+                break
+            if not changed:
+                break
+        return holder[0]
 
     def pred_paths(self, call, polarity):
         """`helper(args)` used as a condition, where helper is a multi-statement package function: for each path of the
